@@ -40,6 +40,8 @@ def slice_of(v):
     if v[0] == "adt" and v[1] == COW:
         inner = v[4][0]
         if v[3] == "Borrowed":
+            if inner[0] != "ref":
+                return ("ref", ("val", ("proj", inner, ("deref",)), ()), False)
             return inner  # a reference
         return ("ref", ("val", inner, ()), False)
     return None
@@ -525,9 +527,16 @@ def m_iter_next(ci):
         pass
     if it[0] == "iter" and it[1] == "enumerate":
         item = ("tuple", (("item_index", it), ("item", it[2], ci.w.split(" ")[0])))
+    extra = []
+    inner = it[2] if (it[0] == "iter" and it[1] == "enumerate") else it
+    if inner[0] == "iter" and inner[1] == "chunks" and inner[3][0] == "int":
+        # slice::chunks(n): every chunk has between 1 and n elements (core::slice::chunks docs)
+        ch = ("item", inner, ci.w.split(" ")[0])
+        ln = ("len", ("proj", ch, ("deref",)))
+        extra = [(("app", "Le", (ln, inner[3])), 1), (("app", "Ge", (ln, mk_int(1, "usize"))), 1)]
     d = ("app", "has_next", (it, mk_int(n, "usize")))
     ci.st.aux["next_count"] = n + 1
-    facts = [(d, 1)]
+    facts = [(d, 1)] + extra
     if it[0] == "adt" and it[1].endswith("ops::range::Range") and len(it[4]) == 2:
         # Range<T>::next yields start <= item < end (core::ops::Range docs)
         item = ("item", it, ci.w.split(" ")[0], n)
